@@ -36,6 +36,7 @@ struct TecmpRecipe
     int32_t cutAt{-1};  // truncate the whole frame
     uint8_t useSerial{0};  // status payloads: 1 = take the serial number from `serial` instead of deriving it from the seed
     uint32_t serial{0};
+    int32_t vendorLen{-1};  // status payloads: value of the generic part's vendor-data-length field, -1 = the usual one (24 / 0)
 
     void io(Ar& a)
     {
@@ -63,6 +64,7 @@ struct TecmpRecipe
         a.num("cutAt", cutAt);
         a.optionalNum("useSerial", useSerial);
         a.optionalNum("serial", serial);
+        a.optionalNum("vendorLen", vendorLen);
     }
 
     Bytes payload() const
@@ -82,7 +84,7 @@ struct TecmpRecipe
                 g.vendorId = static_cast<uint8_t>(mix(seed, 1));
                 g.cmVersion = static_cast<uint8_t>(mix(seed, 2));
                 g.cmType = static_cast<uint8_t>(mix(seed, 3));
-                g.vendorDataLength = 24;
+                g.vendorDataLength = static_cast<uint16_t>(vendorLen < 0 ? 24 : vendorLen);
                 g.deviceId = static_cast<uint16_t>(mix(seed, 4));
                 g.serial = useSerial ? serial : ((mix(seed, 20) & 1) ? mix(seed, 5) : (mix(seed, 5) & 0xFFFF));
                 wire::TecmpCmVendor v;
@@ -110,7 +112,7 @@ struct TecmpRecipe
                 g.vendorId = static_cast<uint8_t>(mix(seed, 1));
                 g.cmVersion = static_cast<uint8_t>(mix(seed, 2));
                 g.cmType = static_cast<uint8_t>(mix(seed, 3));
-                g.vendorDataLength = 0;
+                g.vendorDataLength = static_cast<uint16_t>(vendorLen < 0 ? 0 : vendorLen);
                 g.deviceId = static_cast<uint16_t>(mix(seed, 4));
                 g.serial = useSerial ? serial : mix(seed, 5);
                 wire::putTecmpGeneric(p, g);
@@ -218,6 +220,12 @@ inline TecmpExpectation tecmpReference(const uint8_t* b, size_t n)
     bool status = h.msgType == wire::kTecmpMtCmStatus || h.msgType == wire::kTecmpMtBusStatus;
     if (status && h.dataType != 0)
         return either("status message with a non-zero data type field");
+    if (status && rest >= wire::kTecmpStatusGeneric)
+    {
+        uint16_t v = wire::get16(p + 4);
+        if ((h.msgType == wire::kTecmpMtCmStatus && v != wire::kTecmpCmVendorData) || (h.msgType == wire::kTecmpMtBusStatus && v != 0))
+            return either("status message with an unusual vendor data length field");
+    }
     TecmpExpectedPacket e;
     e.device = h.device;
     e.timestamp = h.timestamp;
